@@ -65,8 +65,74 @@ Proof.
   apply (N.le_trans _ n); assumption.
 Qed.
 
+(** Whatever the count (0 and 1 included: plain) and whatever the writer's capacity, a reader
+    declared with the same count as a writer uses the writer's layout. *)
+Theorem C12_reader_layout_is_the_writers : forall dir n total,
+  match builder_writer dir n total, builder_reader dir n with
+  | FPlain d _, FPlain d' _ => d = d'
+  | FSharded d m _, FSharded d' m' _ => d = d' /\ m = m'
+  | _, _ => False
+  end.
+Proof.
+  intros dir n total. unfold builder_reader, builder_writer.
+  destruct (n <=? 1); [reflexivity|split; reflexivity].
+Qed.
+
 Example C12_example :
   shard_ids 7 9 4 = (2, 3) /\ shard_ids 7 9 8 = (4, 6) /\ shard_ids 1 2 4 = (0, 2) /\
   format_id 64151 = ".kismet_fa97"%string /\ format_id 3 = ".kismet_0003"%string /\
   format_id 1048576 = ".kismet_100000"%string.
 Proof. vm_compute. repeat split. Qed.
+
+(** "looked up from two distinct subdirectories": for arbitrary responses, a lookup or a touch
+    in a sharded directory names exactly two paths - the key's name inside the shard directory
+    of its primary candidate and inside that of its secondary candidate, the candidates being
+    shard_ids (hash, secondary, n) - and no other: no third shard, no top-level file, no
+    listing.  (Proofs/LookupShards.v) *)
+From Kismet Require Import FS.Fs FS.Prog Spec.ClassMon Spec.Calm Proofs.LookupShards.
+Import ListNotations.
+Theorem C12_lookups_name_the_two_candidates_only : forall dir n t k,
+  let '(a, b) := shard_ids (k_hash k) (k_sec k) n in
+  let p1 := ((dir ++ [format_id a]) ++ [k_name k])%list in
+  let p2 := ((dir ++ [format_id b]) ++ [k_name k])%list in
+  allc (paths_ok (one_of p1 p2)) (sh_get dir n t k) anyc /\ allc (paths_ok (one_of p1 p2)) (sh_touch dir n t k) anyc.
+Proof. exact sharded_lookups_name_two_paths. Qed.
+
+Theorem C12_lookups_name_the_two_candidates_on_every_run : forall dir n t k w o,
+  let '(a, b) := shard_ids (k_hash k) (k_sec k) n in
+  let p1 := ((dir ++ [format_id a]) ++ [k_name k])%list in
+  let p2 := ((dir ++ [format_id b]) ++ [k_name k])%list in
+  let '(_, _, _, tr) := run (sh_get dir n t k) w o in
+  Forall (fun ev => match ev with EvCall c _ => paths_ok (one_of p1 p2) c = true | _ => True end) tr.
+Proof. exact sharded_lookups_name_two_paths_run. Qed.
+
+Theorem C12_two_paths_class_meaning : forall p1 p2 q a, q <> p1 -> q <> p2 ->
+  paths_ok (one_of p1 p2) (COpen q a) = false /\ paths_ok (one_of p1 p2) (COpenDir q) = false /\
+  paths_ok (one_of p1 p2) (CStat q true) = false.
+Proof. exact two_paths_meaning. Qed.
+
+(** "only ever stored in two distinct subdirectories": for arbitrary responses, every rename or
+    link issued by a set / put through a sharded directory - the publication, its retry after
+    creating the directory, whatever maintenance of this or another shard does - has as its
+    destination the key's name inside the shard directory of one of the key's two candidates.
+    (Proofs/StoreShards.v) *)
+From Kismet Require Import Proofs.StoreShards.
+Theorem C12_writes_store_in_the_two_candidates_only : forall (which : bool) h dir n t k v,
+  let '(a, b) := shard_ids (k_hash k) (k_sec k) n in
+  let p1 := ((dir ++ [format_id a]) ++ [k_name k])%list in
+  let p2 := ((dir ++ [format_id b]) ++ [k_name k])%list in
+  allc (dst2 p1 p2) (sh_publish (if which then cd_set else cd_put) h dir n t k v) anyc.
+Proof. exact sharded_writes_store_in_two_places. Qed.
+
+Theorem C12_writes_store_in_the_two_candidates_on_every_run : forall (which : bool) h dir n t k v w o,
+  let '(a, b) := shard_ids (k_hash k) (k_sec k) n in
+  let p1 := ((dir ++ [format_id a]) ++ [k_name k])%list in
+  let p2 := ((dir ++ [format_id b]) ++ [k_name k])%list in
+  let '(_, _, _, tr) := run (sh_publish (if which then cd_set else cd_put) h dir n t k v) w o in
+  Forall (fun ev => match ev with EvCall c _ => dst2 p1 p2 c = true | _ => True end) tr.
+Proof. exact sharded_writes_store_in_two_places_run. Qed.
+
+Theorem C12_destination_class_meaning : forall p1 p2 s q, q <> p1 -> q <> p2 ->
+  dst2 p1 p2 (CRename s q) = false /\ dst2 p1 p2 (CLink s q) = false /\ dst2 p1 p2 (CRename s p1) = true /\
+  dst2 p1 p2 (CLink s p2) = true /\ dst2 p1 p2 (CUnlink q) = true.
+Proof. exact dst2_meaning. Qed.
